@@ -109,7 +109,7 @@ def run(R):
                 "raw product fits int64 (|a*b| < 2^31) => result is not NaN", mk_int=mi2)
         layered("%s/nan-when-out-of-range" % u, [a, b], mk3, "exact product outside [lowest,max] => NaN", mk_int=mi3)
         c = R.call(h, u, [a, b])
-        R.verify_noub("%s/no-UB" % u, [a, b], [c], D, portfolio=PF)
+        R.verify_noub_layered("%s/no-UB" % u, [a, b], lambda kw, u=u: [R.call(h, u, [a, b], opts=E.Opts(**kw))], D, portfolio=PF)
         R.witness("%s/reach-finite" % u, [a, b], [c], D, z3.And(z3.Not(isnan_raw(c.out)), c.out != 0))
         R.witness("%s/reach-nan" % u, [a, b], [c], D, isnan_raw(c.out))
     for k in B.INTK:
@@ -132,7 +132,7 @@ def run(R):
                 return [ai, ni], [c], dom, z3.If(z3.And(P <= M, P >= -M), c.out == P, nan_i(c.out))
             layered("%s%s/exact-or-nan" % (u, k), [a, n], mk,
                     "fixed*integer: exact product in range, NaN otherwise (n = mathematical value of the operand)", mk_int=mi)
-            c = R.call(h, u + k, [a, n])
-            R.verify_noub("%s%s/no-UB" % (u, k), [a, n], [c], finite(a), portfolio=PF)
+            R.verify_noub_layered("%s%s/no-UB" % (u, k), [a, n],
+                                  lambda kw, u=u, k=k, n=n: [R.call(h, u + k, [a, n], opts=E.Opts(**kw))], finite(a), portfolio=PF)
         c = R.call(h, "mulr_" + k, [a, n])
         R.witness("mulr_%s/reach-nan" % k, [a, n], [c], finite(a), isnan_raw(c.out))
